@@ -143,6 +143,17 @@ pub fn eval(c: &Case) -> Verdict {
         calls += 1;
         sha::prng_fill(fill.wrapping_add(calls.wrapping_mul(0x1000193)), buf);
     }));
+    // in half of the cases an earlier connection on this thread died in the middle of its
+    // handshake (its object is dropped holding unparsed bytes): nothing of it may reach this one
+    if (fill >> 15) & 1 == 1 {
+        for role in [Role::Server, Role::Client] {
+            let mut dead = Handshake::new(peer_type(role));
+            let mut junk = vec![3u8];
+            junk.extend(fill_bytes(fill as u32 ^ 0xDEAD, 500 + (fill as usize >> 16) % 2000));
+            let _ = dead.process_bytes(&junk);
+            drop(dead);
+        }
+    }
     let mk = |role: Role, trailing: u32| -> End {
         let side = if c.original_peer == Some(role) {
             let mut p1 = vec![0u8; PACKET];
